@@ -162,15 +162,39 @@ func prepareQuery(pc, goal *Term, hints []*Term) (newGoal *Term, newPC *Term, ex
 			consts = append(consts, h)
 		}
 	}
-	budget := 400
+	budget := 600
 	var parts []*Term
-	for _, c := range conjuncts(pc) {
-		if hasQuant(c) {
-			i := instantiate(c, true, consts, &budget)
-			if i != c {
-				parts = append(parts, i)
+	ng := Not(g)
+	for round := 0; round < 2 && len(consts) > 0; round++ {
+		var insts []*Term
+		for _, c := range conjuncts(pc) {
+			if hasQuant(c) {
+				i := instantiate(c, true, consts, &budget)
+				if i != c {
+					insts = append(insts, i)
+				}
 			}
 		}
+		// the negated goal is a hypothesis of the refutation as well: an existential goal becomes
+		// a universal fact there, and needs the same instances (witness candidates)
+		if hasQuant(ng) {
+			i := instantiate(ng, true, consts, &budget)
+			if i != ng {
+				insts = append(insts, i)
+			}
+		}
+		// existentials exposed by the instances get constants of their own, which feed a second round
+		var nsk []*Term
+		for k, i := range insts {
+			if hasQuant(i) {
+				insts[k] = skolemize(i, false, &nsk)
+			}
+		}
+		parts = append(parts, insts...)
+		if len(nsk) == 0 || len(nsk) > 6 {
+			break
+		}
+		consts = nsk
 	}
 	return g, pc, And(parts...)
 }
